@@ -3,7 +3,7 @@
    and the faithful model of the code disagrees with the reference reader on it.  The harness replays
    the same witnesses against the real pharmpy on every run. *)
 From Coq Require Import QArith ZArith NArith List Bool PArith Arith.
-From PV Require Import Base.PyData C13.Model C13.Spec.
+From PV Require Import Base.PyData C13.Model C13.Spec C13.Time.
 Import ListNotations.
 Local Open Scope nat_scope.
 
@@ -183,3 +183,27 @@ Proof.
   exists stale_old. eexists. exists [s_ID; s_TIME; s_DV; s_of [70;76;65;71]], [[CNum (1#1); CNum (0#1); CNum (1#1); CNum (1#1)]].
   split; [vm_compute; reflexivity|]. repeat split; vm_compute; reflexivity.
 Qed.
+
+(* ---- TIME / DATE translation: three open defects --------------------------------------------------------------- *)
+Definition tw (dc : option str) (rows : list (Q * str * str)) : tcase :=
+  mkT dc (map (fun r => fst (fst r)) rows) (map (fun r => snd (fst r)) rows) (map snd rows) (Err OtherErr).
+Definition model_vs_spec (c : tcase) : bool :=
+  tres_agree (translate_model (t_datecol c) (t_ids c) (t_times c) (t_dates c))
+             (spec_translate (t_datecol c) (t_ids c) (t_times c) (t_dates c)).
+(* DATE without year: the two-part branch returns None *)
+Definition w_two_part : tcase := tw (Some s_DATE) [(1#1, s_of [49;50;58;48;48], s_of [49;48;47;51]); (1#1, s_of [49;50;58;51;48], s_of [49;48;47;52])].
+Theorem two_part_refuted : exists c, g_three_parts c = false /\ g_has_date c = true /\ g_no_daynum c = true /\ model_vs_spec c = false /\
+  translate_model (t_datecol c) (t_ids c) (t_times c) (t_dates c) = Err OtherErr.
+Proof. exists w_two_part. repeat split; vm_compute; reflexivity. Qed.
+(* clock times without a DATE column stay text *)
+Definition w_clock : tcase := tw None [(1#1, s_of [49;50;58;49;48], []); (1#1, s_of [49;51;58;52;48], [])].
+Theorem clock_no_date_refuted : exists c, g_has_date c = false /\ g_three_parts c = true /\ model_vs_spec c = false /\
+  translate_model (t_datecol c) (t_ids c) (t_times c) (t_dates c) = Ok [CStr (s_of [49;50;58;49;48]); CStr (s_of [49;51;58;52;48])].
+Proof. exists w_clock. repeat split; vm_compute; reflexivity. Qed.
+(* day-number dates: absolute hours 12.5, 48.5, 84.5 instead of 0, 36, 0 *)
+Definition w_daynum : tcase := tw (Some s_DATE) [(1#1, s_of [49;50;46;53], s_of [48]); (1#1, s_of [48;58;51;48], s_of [50]); (2#1, s_of [49;50;46;53], s_of [51])].
+Theorem daynum_refuted : exists c, g_no_daynum c = false /\ g_three_parts c = true /\ g_has_date c = true /\ model_vs_spec c = false /\
+  tres_agree (translate_model (t_datecol c) (t_ids c) (t_times c) (t_dates c)) (Ok [CNum (25#2); CNum (97#2); CNum (169#2)]) = true /\
+  tres_agree (spec_translate (t_datecol c) (t_ids c) (t_times c) (t_dates c)) (Ok [CNum 0; CNum (36#1); CNum 0]) = true.
+Proof. exists w_daynum. repeat split; vm_compute; reflexivity. Qed.
+
